@@ -563,6 +563,10 @@ def run_paths(body, max_paths=4000, check_feasible=True):
                 mod = getattr(type(e.obj), "__module__", "") or ""
                 if mod.startswith("pyvc") or mod.startswith("contracts") or isinstance(e.obj, types.SimpleNamespace):
                     raise Undecided("model object %s has no attribute %r (unmodelled)" % (type(e.obj).__name__, getattr(e, "name", "?")))
+                nm_ = getattr(e, "name", None)
+                for kls in type(e.obj).__mro__:
+                    if nm_ in getattr(kls, "__dict__", {}).get("__vc_source_names__", ()):
+                        raise Undecided("the assembled class %s lacks %r, which the source class defines (not part of this unit's assembly)" % (kls.__name__, nm_))
             if isinstance(e, NameError) and not isinstance(e, UnboundLocalError):
                 nm = getattr(e, "name", None)
                 if nm and (hasattr(builtins, nm) or nm in MODULE_NAMES):
